@@ -64,6 +64,12 @@ LEAVES = [
     # through every rename (shape pins: the constructor and the `name` setter assign `self.key = name.lower()`)
     ("Register", "src_info_ctor_key", "_services/info.py", "ServiceInfo.__init__", ("assign", "self.key", 0), [], "src", {}),
     ("Register", "src_info_name_setter_key", "_services/info.py", "ServiceInfo.name@setter", ("assign", "self.key", 0), [], "src", {}),
+    # D28 repair and its order: what cannot be put on the wire is refused (the dry-run `generate_service_broadcast(info, None).packets()`
+    # raises) BEFORE the info reaches the registry -- a refused info in the registry would make every later goodbye raise in packets()
+    ("Register", "update_encodes_before_registry", "_core.py", "Zeroconf.async_update_service", ("call_before", "generate_service_broadcast", "self.registry.async_update"),
+     [], "bool", {}),
+    ("Register", "register_encodes_before_registry", "_core.py", "Zeroconf.async_register_service", ("call_before", "generate_service_broadcast", "self.registry.async_add"),
+     [], "bool", {}),
     # the registry is keyed by name: removal is by key, never by object identity (an equal-but-distinct ServiceInfo, or the
     # handle from before update_service, withdraws the service)
     ("Register", "registry_remove_by_identity", "_services/registry.py", "ServiceRegistry.async_remove", ("has_identity_test",),
